@@ -16,6 +16,27 @@ sys.path.insert(0, os.path.dirname(os.path.abspath(__file__)))
 from cexpr import *
 
 
+def strip_hooks(src):
+    """drop `#ifdef CPPCMS_VERIF_HOOKS … #endif` blocks: add-only verification callbacks (null unless a harness
+    registers one; the C07/C08 harness does not), not part of the code being modelled"""
+    out, skip = [], False
+    for line in src.split("\n"):
+        t = line.strip()
+        if not skip and re.match(r"#\s*ifdef\s+CPPCMS_VERIF_HOOKS\b", t):
+            skip = True
+            continue
+        if skip:
+            if re.match(r"#\s*(if|ifdef|ifndef)\b", t):
+                raise Untranslatable("nested preprocessor conditional inside a CPPCMS_VERIF_HOOKS block")
+            if re.match(r"#\s*(else|elif)\b", t):
+                raise Untranslatable("#else branch of a CPPCMS_VERIF_HOOKS block (hooks must be add-only)")
+            if re.match(r"#\s*endif\b", t):
+                skip = False
+            continue
+        out.append(line)
+    return "\n".join(out)
+
+
 def squeeze(s):
     return re.sub(r"\s+", "", s)
 
@@ -34,7 +55,7 @@ def expect_in_order(name, body, pats):
 
 def iface(repo, w):
     """src/cache_interface.cpp: constants and statement-order shape of the trigger-recording layer (Iface.lean)"""
-    src = strip_c_comments(open(os.path.join(repo, "src/cache_interface.cpp")).read())
+    src = strip_hooks(strip_c_comments(open(os.path.join(repo, "src/cache_interface.cpp")).read()))
     m = re.search(r"const\s+time_t\s+infty\s*=\s*\(sizeof\(time_t\)==4\s*\?\s*0x7FFFFFFF\s*:\s*(0x[0-9A-Fa-f]+)ULL\s*\)\s*-\s*([0-9*\s]+);", src)
     if not m:
         raise Untranslatable("cache_interface: infty")
@@ -94,7 +115,7 @@ def iface(repo, w):
 
 
 def main(repo, lean):
-    src = strip_c_comments(open(os.path.join(repo, "src/cache_storage.cpp")).read())
+    src = strip_hooks(strip_c_comments(open(os.path.join(repo, "src/cache_storage.cpp")).read()))
     o = []
     w = o.append
     w("/- GENERATED by translate/c07.py from src/cache_storage.cpp. Do not edit. -/")
